@@ -562,6 +562,9 @@ func runCase(c *vh.Ctx, m *vh.Model, k *txCase) {
 		case failed && a == recipient && !p.Exists && q.Exists && !deleteEmpty:
 			// st.to() does CreateAccount(recipient) before evm.Call takes its snapshot: the new empty account survives the revert
 			c.Violate("failed-tx-creates-empty-recipient", "before EIP-158 a failed execution leaves a newly created empty recipient account "+a.Hex()+" in the state (only the fee and the nonce may survive a failure)", replay)
+		case failed && a == recipient && !involved[a] && p.Exists && !q.Exists && k.value.Sign() == 0:
+			// a reverted zero-value touch must leave the account alone (touchChange.undo): not the known finding
+			c.Violate("failed-tx-deletes-empty-recipient-after-zero-value-touch/"+k.sc.name, "a failed zero-value call removed the pre-existing empty recipient "+a.Hex(), replay)
 		case failed && a == recipient && !involved[a] && p.Exists && !q.Exists:
 			// same root cause as the C09 finding: balanceChange.undo leaves the object in stateObjectsDirty (and the
 			// RIPEMD special case keeps a reverted touch), so Finalise deletes an account the failed call only touched
